@@ -99,6 +99,36 @@ def check(prog, run):
             if not tests or not adds or ast.unparse(tests[0].comparators[0]) != ast.unparse(adds[0].func.value):
                 run.report(r, key + ":duplicates", m.where(lp), "duplicate %s names are not detected" % label)
 
+    # ---- V4 the validator inspects the resolver the executor will call
+    r = run.rule("V4", "validate_fields checks the signature of the resolver the executor will actually call: the same fallback "
+                       "chain field.resolver -> object type default_resolver -> schema default_resolver as Executor.field_resolver", 2)
+    vf = sv.methods.get("validate_fields")
+    fr = prog.get_func("py_gql.execution.executor", "Executor.field_resolver")
+
+    def chain(f, var):
+        defs = [n for n in own_nodes(f.node) if isinstance(n, ast.Assign) and ast.unparse(n.targets[0]) == var]
+        if len(defs) != 1 or not isinstance(defs[0].value, ast.BoolOp) or not isinstance(defs[0].value.op, ast.Or):
+            return None, defs[0] if defs else None
+        out = []
+        for v in defs[0].value.values:
+            if isinstance(v, ast.IfExp):
+                v = v.body
+            if isinstance(v, ast.Attribute):
+                out.append(v.attr.lstrip("_"))
+            else:
+                out.append("<%s>" % " ".join(ast.unparse(v).split())[:50])
+        return out, defs[0]
+    vchain, vdef = chain(vf, "resolver")
+    echain, edef = chain(fr, "base")
+    r.instance("validator chain %s" % vchain)
+    r.instance("executor chain %s" % echain)
+    if echain is None:
+        raise AnalysisError("C13.V4: Executor.field_resolver fallback chain not recognised")
+    if vchain != echain:
+        run.report(r, "%s:SchemaValidator.validate_fields:resolver-chain" % VAL, vf.where(vdef) if vdef is not None else vf.where(),
+                   "the validator looks the resolver up as %s while the executor calls %s: an incompatible resolver can go unchecked "
+                   "(or a compatible schema be rejected)" % (vchain, echain))
+
     # ---- V3 accumulate, do not raise
     r = run.rule("V3", "SchemaValidator methods never raise (violations are accumulated); validate_schema raises "
                        "SchemaValidationError(validator.errors) iff the validator is falsy", 10)
